@@ -172,7 +172,7 @@ include L
 /-- the root move loop of iteration 1 when the moves fit between two polls: it is not aborted, the stop flag stays
 clear, nothing but board / counters / history / killers changes; and if a legal move is among the moves (or a move
 was found before) and the value-range hypothesis holds, a move is found -/
-theorem root1_loop {fuel : Nat} (b0 : Board) (hwf : wf b0 = true) (beta : Int) :
+theorem root1_loop {fuel : Nat} (b0 : Board) (hinv : Inv (fuel + 1) b0) (beta : Int) :
     ∀ (moves : List Move), (∀ m ∈ moves, m ∈ genPseudo b0) →
     ∀ (s : St) (isPv : Bool) (pvMove : Option Move) (h ph : UInt64) (rem : Nat) (acc : LoopAcc),
       vis s.board = vis b0 → s.stop = false → 0 < s.negamaxNodes → s.negamaxNodes + moves.length ≤ s.pollPeriod →
@@ -182,6 +182,7 @@ theorem root1_loop {fuel : Nat} (b0 : Board) (hwf : wf b0 = true) (beta : Int) :
       (HorizonBelowWin b0 fuel → beta = Gen.winScore → (∀ k, s.tt.get? k = none) → lossScore ≤ acc.alpha → lossScore ≤ acc.bestValue →
         (Found acc ∨ (acc.bestValue = lossScore ∧ ∃ m ∈ moves, isValid (make b0 m) = true)) →
         Found (negamaxLoop fuel s moves 0 1 beta isPv pvMove h ph rem acc).1) := by
+  have hwf := hinv.wf
   intro moves
   induction moves with
   | nil =>
@@ -205,7 +206,7 @@ theorem root1_loop {fuel : Nat} (b0 : Board) (hwf : wf b0 = true) (beta : Int) :
       have hinv : isValid (make b0 m) = false := by
         rw [← isValid_congr hmk]; simpa using hv
       obtain ⟨⟨b, q, hist, nn, k, h1⟩, h2, h3⟩ := ih hrest { s with board := unmake (make s.board m) m } isPv pvMove h ph rem acc
-        (back L hwf hm hmk) hstop hnn (by show s.negamaxNodes + rest.length ≤ s.pollPeriod; omega)
+        (back hwf hm hmk) hstop hnn (by show s.negamaxNodes + rest.length ≤ s.pollPeriod; omega)
       refine ⟨⟨b, q, hist, nn, k, by rw [h1]⟩, h2, ?_⟩
       intro hv' hbeta htt ha hbv hf
       refine h3 hv' hbeta htt ha hbv ?_
@@ -217,8 +218,7 @@ theorem root1_loop {fuel : Nat} (b0 : Board) (hwf : wf b0 = true) (beta : Int) :
     · rename_i hv
       have hv' : isValid (make b0 m) = true := by
         rw [← isValid_congr hmk]; simpa using hv
-      have hwf1 : wf (make s.board m) = true := by
-        rw [wf_congr hmk]; exact L.make_wf b0 hwf m hm hv'
+      have hwf1 : Inv fuel (make s.board m) := (child_inv L hinv hs hm (by simpa using hv)).1
       obtain ⟨b, q, hist, nn, hr, hnn1, hnn2⟩ := horizon_child fuel { s with board := make s.board m } 0 (-beta)
         (-acc.alpha) (childPvOf isPv pvMove m) (h ^^^ (Zobrist.xorOf m.f).1) (ph ^^^ (Zobrist.xorOf m.f).2)
         hnn (by show s.negamaxNodes < s.pollPeriod; omega)
@@ -241,7 +241,7 @@ theorem root1_loop {fuel : Nat} (b0 : Board) (hwf : wf b0 = true) (beta : Int) :
       obtain ⟨child, s2⟩ := r
       simp only at hr hrb hvalue ⊢
       subst hr
-      have hb := back L hwf hm (hrb.trans hmk)
+      have hb := back hwf hm (hrb.trans hmk)
       have hfound : HorizonBelowWin b0 fuel → beta = Gen.winScore → (∀ k, s.tt.get? k = none) → lossScore ≤ acc.alpha →
           (Found acc ∨ acc.bestValue = lossScore) → Found (accUpdate acc m child) := by
         intro hvl hbeta htt ha hf
@@ -275,7 +275,7 @@ theorem root1_loop {fuel : Nat} (b0 : Board) (hwf : wf b0 = true) (beta : Int) :
 pseudo-legal move list is shorter than the poll period, the depth-1 root search ends with the stop flag clear, without
 having consumed a message or emitted an info; and it returns a move if the position has a legal move, the table is
 empty and the value-range hypothesis holds -/
-theorem root1 (p : St) (hwf : wf p.board = true) (hstop : p.stop = false) (hnn : p.negamaxNodes = 0)
+theorem root1 (p : St) (hwf : Inv (fuelFor 1) p.board) (hstop : p.stop = false) (hnn : p.negamaxNodes = 0)
     (hpoll : (genPseudo p.board).length < p.pollPeriod) :
     (rootSearch p 1).2.stop = false ∧ (rootSearch p 1).2.pending = p.pending ∧ (rootSearch p 1).2.out = p.out ∧
     (HorizonBelowWin p.board (fuelFor 1 - 1) → (∀ k, p.tt.get? k = none) →
@@ -315,7 +315,7 @@ theorem root1 (p : St) (hwf : wf p.board = true) (hstop : p.stop = false) (hnn :
     · split
       · rename_i hz; simp at hz
       · -- the move loop
-        have hwf3 : wf (enter p (Zobrist.hash p.board)).board = true := by rw [he]; exact hwf
+        have hwf3 : Inv (200 + 1) (enter p (Zobrist.hash p.board)).board := by rw [he]; exact hwf
         obtain ⟨⟨b, q, hist, nn, k, h1⟩, h2, h3⟩ := root1_loop L (enter p (Zobrist.hash p.board)).board hwf3 beta
           (sortMoves (rootBuffer (enter p (Zobrist.hash p.board)) 0)
             (pvMoveOf (enter p (Zobrist.hash p.board)) p.pv.isSome 0)
@@ -355,7 +355,7 @@ theorem root1 (p : St) (hwf : wf p.board = true) (hstop : p.stop = false) (hnn :
 
 /-- TARGET `depth1_completes`, reduced to the value-range hypothesis and to the move-count hypothesis:
 a position with a legal move never gets the null move -/
-theorem depth1_completes_partial (s : St) (g : GoParams) (maxIter : Nat) (hwf : wf s.board = true) (hiter : 1 ≤ maxIter)
+theorem depth1_completes_partial (s : St) (g : GoParams) (maxIter : Nat) (hwf : Inv (fuelFor 1) s.board) (hiter : 1 ≤ maxIter)
     (hpoll : (genPseudo s.board).length < s.pollPeriod)
     (hlegal : ∃ m, LegalRoot s.board g.searchMoves m)
     (hval : HorizonBelowWin s.board (fuelFor 1 - 1)) :
@@ -390,7 +390,7 @@ theorem depth1_completes_partial (s : St) (g : GoParams) (maxIter : Nat) (hwf : 
 
 /-- **no interruption before iteration 1 has completed**: whatever is waiting in the channel and whatever the time
 limit, the first iteration of a `go` ends with the stop flag clear -/
-theorem depth1_not_interrupted (s : St) (g : GoParams) (hwf : wf s.board = true)
+theorem depth1_not_interrupted (s : St) (g : GoParams) (hwf : Inv (fuelFor 1) s.board)
     (hpoll : (genPseudo s.board).length < s.pollPeriod) :
     (rootSearch (goPrep s g) 1).2.stop = false ∧ (rootSearch (goPrep s g) 1).2.pending = s.pending := by
   obtain ⟨k, pv, g', hp⟩ := goPrep_eq s g
